@@ -41,7 +41,9 @@ pub enum SubKind {
 pub enum Op {
     Write { node: usize, key: usize, stream: usize, events: usize },
     /// `from`: None = from now on; Some(k) = from sequence / version k
-    Subscribe { node: usize, kind: SubKind, key: usize, stream: usize, from: Option<u64>, window: u64 },
+    /// `race`: the history read is parked between its batches (hook K3) while `race` ms of cluster
+    /// time pass (confirmations arrive, the watermark moves), then released
+    Subscribe { node: usize, kind: SubKind, key: usize, stream: usize, from: Option<u64>, window: u64, #[serde(default)] race: u64 },
     /// acknowledge all but the last `lag` records received so far on subscription `sub`
     Ack { sub: usize, lag: u64 },
     Advance { ms: u64 },
@@ -101,7 +103,7 @@ pub fn plan(tier: Tier, seed: u64) -> Value {
                     1 => Some(0),
                     _ => Some(rng.below(8)),
                 };
-                Op::Subscribe { node: a, kind, key: rng.usize_below(keys), stream: rng.usize_below(streams), from, window: *rng.pick(&[1u64, 2, 5, 1000]) }
+                Op::Subscribe { node: a, kind, key: rng.usize_below(keys), stream: rng.usize_below(streams), from, window: *rng.pick(&[1u64, 2, 5, 1000, 1000]), race: if rng.chance(1, 2) { *rng.pick(&[50u64, 1000, 5000, 10_000]) } else { 0 } }
             }
             2 if subs > 0 => Op::Ack { sub: rng.usize_below(subs), lag: rng.below(3) },
             4 if n > 1 => Op::Cut { a, b, on: rng.chance(2, 3) },
@@ -355,7 +357,7 @@ fn run(plan: C09Plan) -> RunOutcome {
         }
         match op {
             Op::Write { node, key, stream, events } if *node < plan.n && *key < plan.keys => do_write(&mut cluster, *node, *key, *stream, *events, &mut wrng),
-            Op::Subscribe { node, kind, key, stream, from, window } if *node < plan.n && *key < plan.keys && cluster.is_up(*node) => {
+            Op::Subscribe { node, kind, key, stream, from, window, race } if *node < plan.n && *key < plan.keys && cluster.is_up(*node) => {
                 let db = cluster.nodes[*node].db.clone().unwrap();
                 let all_partitions: BTreeSet<u16> = cluster.assigned_partitions(*node).into_iter().collect();
                 let (partitions, streams): (BTreeSet<u16>, BTreeSet<String>) = match kind {
@@ -419,8 +421,21 @@ fn run(plan: C09Plan) -> RunOutcome {
                 cluster.spawn_on(*node, async move {
                     let _ = actor.ask(msg).await;
                 });
+                if *race > 0 {
+                    sim::hold_subscriptions(true);
+                }
                 subs.push(Sub { node: *node, kind: kind.clone(), window: *window, partitions, streams, from: *from, start_seq, start_ver, complete_seq, complete_ver, rx, ack_tx, acked: None, received: Vec::new(), closed: None });
                 cluster.settle();
+                if *race > 0 {
+                    let held_before = sim::subscriptions_held();
+                    let t = cluster.now_ms + *race;
+                    cluster.run_until(t);
+                    if sim::subscriptions_held() > held_before + 10 {
+                        *ctx.out.probes.entry("history_read_parked_between_batches".into()).or_insert(0) += 1;
+                    }
+                    sim::hold_subscriptions(false);
+                    cluster.settle();
+                }
             }
             Op::Ack { sub, lag } if *sub < subs.len() => {
                 let s = &mut subs[*sub];
